@@ -99,7 +99,10 @@ def gen_sig(rng, depth, all_out=False, allow_zero_dim=True):
         elif r < 0.35:
             dims = [rng.choice([1, 2, 3]), rng.choice([1, 2])]
         if depth > 0 and rng.random() < 0.35:
-            members.append([name, flow, dims, "sig", gen_sig(rng, depth - 1, all_out, allow_zero_dim)])
+            sub = gen_sig(rng, depth - 1, all_out, allow_zero_dim)
+            if rng.random() < 0.3:
+                sub["via_flip"] = True
+            members.append([name, flow, dims, "sig", sub])
         else:
             sh = gen_shape(rng)
             members.append([name, flow, dims, "port", {"shape": sh, "init": gen_init(rng, sh)}])
@@ -157,6 +160,12 @@ def build_sig(ir):
         F = In if flow == "In" else Out
         if kind == "port":
             m = F(real_shape(payload["shape"]), init=real_init(payload["shape"], payload["init"]))
+        elif payload.get("via_flip"):
+            # the member's description is itself a flipped signature: the sub-signature is written with every member
+            # reversed and then flipped, which denotes the same directions
+            inv = dict(payload, via_flip=False,
+                       members=[[n_, ("Out" if f_ == "In" else "In"), d_, k_, p_] for (n_, f_, d_, k_, p_) in payload["members"]])
+            m = F(build_sig(inv).flip())
         else:
             m = F(build_sig(payload))
         if dims:
